@@ -70,38 +70,44 @@ def impl_hash():
 
 
 def run_parallel(cmds, nproc=NCPU, timeout=None, env=None):
-    """run shell commands (lists) in parallel; returns list of (rc, stdout)"""
+    """run commands (argv lists) in parallel; returns list of (rc, output).
+    Output goes to temporary files, never to pipes (a full pipe would block the child)."""
+    import tempfile
     results = [None] * len(cmds)
     running = []
     idx = 0
+    os.makedirs(os.path.join(OUT, "tmp"), exist_ok=True)
     while idx < len(cmds) or running:
         while idx < len(cmds) and len(running) < nproc:
             e = dict(os.environ)
             if env:
                 e.update(env[idx] if isinstance(env, list) else env)
-            p = subprocess.Popen(cmds[idx], stdout=subprocess.PIPE, stderr=subprocess.STDOUT, text=True, env=e)
-            running.append((idx, p, time.time()))
+            tf = tempfile.TemporaryFile(mode="w+", dir=os.path.join(OUT, "tmp"))
+            p = subprocess.Popen(cmds[idx], stdout=tf, stderr=subprocess.STDOUT, env=e)
+            running.append((idx, p, time.time(), tf))
             idx += 1
         still = []
-        for (i, p, t0) in running:
-            if p.poll() is None:
-                if timeout and time.time() - t0 > timeout:
-                    p.kill()
-                    out = p.communicate()[0]
-                    results[i] = (124, out)
-                else:
-                    still.append((i, p, t0))
+        for (i, p, t0, tf) in running:
+            rc = p.poll()
+            if rc is None and timeout and time.time() - t0 > timeout:
+                p.kill()
+                p.wait()
+                rc = 124
+            if rc is None:
+                still.append((i, p, t0, tf))
             else:
-                results[i] = (p.returncode, p.communicate()[0])
+                tf.seek(0)
+                results[i] = (rc, tf.read())
+                tf.close()
         running = still
         if running:
             time.sleep(0.02)
     return results
 
 
-def tlc_cmd(module, cfg, metadir, workers=1, xmx="3g", extra=()):
+def tlc_cmd(module, cfg, metadir, workers=1, xmx="2500m", extra=()):
     return ["timeout", "3000", "java", "-XX:+UseParallelGC", "-XX:ParallelGCThreads=2", "-Xmx" + xmx,
-            "-cp", TLA_JAR, "tlc2.TLC", "-workers", str(workers), "-metadir", metadir,
+            "-cp", TLA_JAR, "tlc2.TLC", "-noGenerateSpecTE", "-workers", str(workers), "-metadir", metadir,
             "-config", os.path.join(SPEC, cfg), os.path.join(SPEC, module)] + list(extra)
 
 
